@@ -22,6 +22,7 @@ import (
 
 	"github.com/semihalev/sdns/internal/cache"
 	"github.com/semihalev/sdns/internal/verif/vlib"
+	mcache "github.com/semihalev/sdns/middleware/cache"
 	"github.com/semihalev/sdns/middleware/ratelimit"
 )
 
@@ -134,6 +135,7 @@ var (
 	lRef  = map[uint64]bool{}
 	lMax  int
 	lPend *pending
+	lIDs  = map[uint64]any{}
 )
 
 // ---------------------------------------------------------------- helpers
@@ -413,7 +415,7 @@ func exec(op string) vlib.Res {
 	if f[0] == "conc" {
 		return execConc(f[1], f[2:])
 	}
-	if f[0] != "umap" && f[0] != "segmap" && f[0] != "cache" && f[0] != "lim" {
+	if f[0] != "umap" && f[0] != "segmap" && f[0] != "cache" && f[0] != "lim" && f[0] != "ans" {
 		return vlib.Res{Impl: "bad-op"}
 	}
 	// Watchdog: a (mutated) table must never hang the driver. Each op runs in
@@ -441,6 +443,8 @@ func exec(op string) vlib.Res {
 			ch <- execSegmap(f[1], f[2:])
 		case "cache":
 			ch <- execCache(f[1], f[2:])
+		case "ans":
+			ch <- execAns(f[1], f[2:])
 		default:
 			ch <- execLim(f[1], f[2:])
 		}
@@ -1167,6 +1171,124 @@ func execCache(op string, a []string) vlib.Res {
 	return vlib.Res{Impl: "bad-op"}
 }
 
+// ---------------------------------------------------------------- answer caches
+
+// `ans` ops drive middleware/cache.PositiveCache / NegativeCache (thin layers
+// over cache.Cache with an expiry check in Get). Entry tokens: an ODD token is
+// an entry that is already expired when it is stored (alternately by a lapsed
+// TTL and by a lapsed delegation cut), an even one is live for an hour.
+// Oracle from the property text: a key yields the value most recently stored
+// under it — so after Set(k, expired) a Get(k) is a miss (never the older
+// value), and Len counts what iteration/lookup can still reach.
+var (
+	ansC    answerCache
+	ansRef  = map[uint64]uint64{}
+	ansEnt  = map[uint64]*mcache.CacheEntry{}
+	ansTok  = map[*mcache.CacheEntry]uint64{}
+	ansFlip bool
+)
+
+func ansEntry(tok uint64) *mcache.CacheEntry {
+	var e *mcache.CacheEntry
+	switch {
+	case tok%2 == 0:
+		e = mcache.VerifC16Entry(false)
+	case ansFlip:
+		e = mcache.VerifC16EntryCut()
+	default:
+		e = mcache.VerifC16Entry(true)
+	}
+	ansFlip = !ansFlip
+	ansTok[e] = tok
+	return e
+}
+
+func execAns(op string, a []string) vlib.Res {
+	if op == "new" {
+		if !need(a, 2) {
+			return vlib.Res{Impl: "bad-op"}
+		}
+		size := vlib.Atoi(a[1])
+		switch a[0] {
+		case "pos":
+			ansC = mcache.NewPositiveCache(size, time.Second, time.Hour, nil)
+		case "neg":
+			ansC = mcache.NewNegativeCache(size, time.Second, time.Hour, nil)
+		default:
+			return vlib.Res{Impl: "bad-op"}
+		}
+		ansRef = map[uint64]uint64{}
+		ansTok = map[*mcache.CacheEntry]uint64{}
+		return vlib.Res{Impl: "ok", Oracle: "ok"}
+	}
+	if ansC == nil {
+		return vlib.Res{Impl: "no-table"}
+	}
+	switch op {
+	case "set":
+		if !need(a, 2) {
+			break
+		}
+		k, tok := vlib.AtoU64(a[0]), vlib.AtoU64(a[1])
+		ansC.Set(k, ansEntry(tok))
+		ansRef[k] = tok
+		or := "ok"
+		if ansC.Len() != len(ansRef) {
+			or = fail("ans/set/miscounted", "Len()=%d after Set(%d, token %d), %d keys stored", ansC.Len(), k, tok, len(ansRef))
+		}
+		tags := ""
+		if tok%2 == 1 {
+			tags = "nt,expired-set"
+		}
+		return vlib.Res{Impl: fmt.Sprintf("len=%d", ansC.Len()), Oracle: or, Tags: tags}
+	case "get":
+		if !need(a, 1) {
+			break
+		}
+		k := vlib.AtoU64(a[0])
+		e, ok := ansC.Get(k)
+		got := "-"
+		if ok {
+			got = u64s(ansTok[e])
+		}
+		want := "-"
+		if tok, in := ansRef[k]; in {
+			if tok%2 == 0 {
+				want = u64s(tok)
+			} else {
+				delete(ansRef, k) // the lookup drops the expired entry
+			}
+		}
+		or := "ok"
+		switch {
+		case got != want:
+			or = fail("ans/get/not-most-recent", "Get(%d) yields %s, the value most recently stored under the key yields %s", k, got, want)
+		case ansC.Len() != len(ansRef):
+			or = fail("ans/get/miscounted", "Len()=%d after Get(%d), %d keys stored", ansC.Len(), k, len(ansRef))
+		}
+		return vlib.Res{Impl: fmt.Sprintf("%s len=%d", got, ansC.Len()), Oracle: or, Tags: "nt"}
+	case "remove":
+		if !need(a, 1) {
+			break
+		}
+		k := vlib.AtoU64(a[0])
+		ansC.Remove(k)
+		delete(ansRef, k)
+		or := "ok"
+		if ansC.Len() != len(ansRef) {
+			or = fail("ans/remove/miscounted", "Len()=%d, %d keys stored", ansC.Len(), len(ansRef))
+		}
+		return vlib.Res{Impl: fmt.Sprintf("len=%d", ansC.Len()), Oracle: or}
+	case "len":
+		or := "ok"
+		if ansC.Len() != len(ansRef) {
+			or = fail("ans/len/miscounted", "Len()=%d, %d keys stored", ansC.Len(), len(ansRef))
+		}
+		return vlib.Res{Impl: strconv.Itoa(ansC.Len()), Oracle: or}
+	}
+	return vlib.Res{Impl: "bad-op"}
+}
+
 // limAudit: the store holds exactly the reference keys.
 func limAudit(op string) string {
 	keys := ratelimit.VerifLimiterKeys(ls)
@@ -1203,6 +1325,7 @@ func execLim(op string, a []string) vlib.Res {
 		}
 		ls = ratelimit.NewLimiterStore(lMax, rate)
 		lRef = map[uint64]bool{}
+		lIDs = map[uint64]any{}
 		lPend = nil
 		return vlib.Res{Impl: "ok", Oracle: limAudit(op)}
 	}
@@ -1230,6 +1353,17 @@ func execLim(op string, a []string) vlib.Res {
 			before[x] = true
 		}
 		l := ls.Get(k)
+		// distinct keys never alias: the limiter handed out for k must not be
+		// the one another stored key currently owns
+		aliasOf := uint64(0)
+		aliased := false
+		id := ratelimit.VerifLimiterID(l)
+		for ok2, oid := range lIDs {
+			if ok2 != k && oid == id && lRef[ok2] {
+				aliasOf, aliased = ok2, true
+			}
+		}
+		lIDs[k] = id
 		// lastSeen is wall-clock nanoseconds: make sure the next touch gets a
 		// strictly later stamp, so "least recently seen" is never a tie
 		for t0 := time.Now().UnixNano(); time.Now().UnixNano() == t0; {
@@ -1249,6 +1383,8 @@ func execLim(op string, a []string) vlib.Res {
 		switch {
 		case l == nil:
 			or = fail("lim/get/wrong-result", "Get(%d) returned nil", k)
+		case aliased:
+			or = fail("lim/get/aliased-keys", "Get(%d) returned the very limiter that key %d owns: two clients share one bucket", k, aliasOf)
 		case !after[k]:
 			or = fail("lim/get/evicted-own-key", "key=%d is not in the store right after Get (victims %s)", k, joinKeys(vict))
 		case len(vict) > 1:
